@@ -3,6 +3,7 @@ package files
 import (
 	"bytes"
 	"fmt"
+	"sort"
 	"strings"
 	"sync"
 
@@ -51,12 +52,14 @@ type world struct {
 	expect map[string][]byte
 	// casFailed[thread] is set if the fake CAS refused its Put.
 	casFailed map[string]bool
-	results   []string
+	// startVersion[thread] is the pool file version when its upload began.
+	startVersion map[string]int
+	results      []string
 }
 
 func (w *world) fail(fp, format string, args ...any) { w.x.FailP(prop, fp, format, args...) }
-func (w *world) pf() *poolFile                          { return w.pool.files[0] }
-func (w *world) oracles() bool                          { return !w.x.Free() && mc.Active(prop) }
+func (w *world) pf() *poolFile                       { return w.pool.files[0] }
+func (w *world) oracles() bool                       { return !w.x.Free() && mc.Active(prop) }
 
 func (w *world) me() string {
 	if t := w.x.Current(); t != nil {
@@ -99,7 +102,7 @@ type worldCfg struct {
 }
 
 func newWorld(x *mc.X, cfg worldCfg) *world {
-	w := &world{x: x, log: &recordingErrorLogger{}, cas: &fakeCAS{}, delay: make(chan struct{}), expect: map[string][]byte{}, casFailed: map[string]bool{}}
+	w := &world{x: x, log: &recordingErrorLogger{}, cas: &fakeCAS{}, delay: make(chan struct{}), expect: map[string][]byte{}, casFailed: map[string]bool{}, startVersion: map[string]int{}}
 	w.pool = &fakePool{fail: w.fail}
 	w.leaf = newLeaf(w.pool, w.log, cfg.nfs, 0)
 	w.held = 1 // the directory entry
@@ -130,8 +133,16 @@ func newWorld(x *mc.X, cfg worldCfg) *world {
 	}
 
 	w.cas.who = w.me
-	w.cas.enter = func() bool {
+	w.cas.enter = func(d digest.Digest) bool {
 		who := w.me()
+		// Everything the uploading thread carries from here on is
+		// determined by the digest it computed, the version at which
+		// it started (used by its final check) and global state: its
+		// observation history can be forgotten (state pruning).
+		w.mu.Lock()
+		start := w.startVersion[who]
+		w.mu.Unlock()
+		x.ResetLocal(fmt.Sprintf("%s:put:%s:%d", who, d, start))
 		if w.oracles() {
 			// The caller holds a frozen descriptor: what it is
 			// going to send are the contents at the freeze instant.
@@ -173,8 +184,8 @@ func newWorld(x *mc.X, cfg worldCfg) *world {
 	}
 
 	x.AddEvent(&mc.Event{
-		Name:    "writable-file-delay-expires",
-		Free:    true,
+		Name: "writable-file-delay-expires",
+		Free: true,
 		Enabled: func() bool {
 			w.mu.Lock()
 			defer w.mu.Unlock()
@@ -241,18 +252,20 @@ func (w *world) key() string {
 		d.NoMoreWritersWakeupSet, d.UnfreezeWakeupSet, cached, d.HandleLinkCount,
 		pf.closed, pf.usesAfterClose, pf.version(), pf.data, w.fired,
 		w.held, w.pending, w.uploadsLeft, w.want, w.prevFrozen, w.snap, w.snapVersion)
+	// The order of Puts and results does not influence anything later.
+	var tail []string
 	w.cas.mu.Lock()
 	for _, p := range w.cas.puts {
-		fmt.Fprintf(&b, " put{%s %q failed=%v err=%v}", p.who, p.data, p.failed, p.err != nil)
+		tail = append(tail, fmt.Sprintf("put{%s %q failed=%v err=%v}", p.who, p.data, p.failed, p.err != nil))
 	}
 	w.cas.mu.Unlock()
+	tail = append(tail, w.results...)
+	sort.Strings(tail)
+	b.WriteString(strings.Join(tail, " "))
 	for _, who := range []string{"U", "U1", "U2"} {
 		if e, ok := w.expect[who]; ok {
 			fmt.Fprintf(&b, " expect{%s %q}", who, e)
 		}
-	}
-	for _, r := range w.results {
-		b.WriteString(" " + r)
 	}
 	return b.String()
 }
@@ -270,6 +283,9 @@ func (w *world) uploader(name string) {
 		startVersion := 0
 		if w.oracles() {
 			startVersion = w.pf().version()
+			w.mu.Lock()
+			w.startVersion[name] = startVersion
+			w.mu.Unlock()
 		}
 		w.add(0, 1)
 		d, err := uploadFile(w.leaf, w.cas, sha256Fn, w.delay)
@@ -493,7 +509,10 @@ func concScenario(name string, cfg worldCfg, shards int, spawn func(w *world)) *
 	props := []string{prop}
 	if shards == 0 {
 		// The cheaper scenarios also serve the lock-leak / deadlock
-		// property of the virtual file system.
+		// property of the virtual file system, and are small enough
+		// for an unbounded (state-pruned) search in the thorough tier.
+		// The others are searched up to 4 preemptions there, split
+		// over several processes.
 		props = append(props, "C14")
 	}
 	return &mc.Scenario{
@@ -503,7 +522,7 @@ func concScenario(name string, cfg worldCfg, shards int, spawn func(w *world)) *
 		Liveness: []string{prop, "C14"},
 		Livelock: []string{prop, "C14"},
 		Panics:   []string{prop},
-		Bounds:   map[string]int{"quick": 2, "thorough": -1},
+		Bounds:   map[string]int{"quick": 2, "thorough": map[bool]int{false: -1, true: 4}[shards > 0]},
 		Build: func(x *mc.X) {
 			cur = newWorld(x, cfg)
 			spawn(cur)
@@ -527,7 +546,7 @@ func scenarios() []*mc.Scenario {
 	}
 	// Two uploads (two frozen readers) around one writer: the writer must
 	// wait for both and must be woken by the last one.
-	r = append(r, concScenario("upload-upload-write/fuse", worldCfg{initial: "ab"}, 8, func(w *world) {
+	r = append(r, concScenario("upload-upload-write/fuse", worldCfg{initial: "ab"}, 4, func(w *world) {
 		w.uploader("U1")
 		w.uploader("U2")
 		w.writer(true, false, mutWrite)
@@ -547,7 +566,7 @@ func scenarios() []*mc.Scenario {
 		w.linker()
 	}))
 	// Two uploads waiting for the same writer, which truncates.
-	r = append(r, concScenario("heldwriter-upload-truncate/nfs", worldCfg{nfs: true, initial: "abc", heldWriter: true}, 8, func(w *world) {
+	r = append(r, concScenario("heldwriter-upload-truncate/nfs", worldCfg{nfs: true, initial: "abc", heldWriter: true}, 4, func(w *world) {
 		w.uploader("U1")
 		w.uploader("U2")
 		w.writer(false, false, mutTruncate)
